@@ -20,6 +20,7 @@ func init() {
 			"R3 (who-may-call): storage writes in gcsca occur only in the no-clobber gate (the function that invokes Storage.Exists) and the manifest writer; the manifest writer is reachable only from Finalize; packages rotate and testing/nonprod/localca perform no storage writes of their own. " +
 			"R4 (ESP + slice): manifest.Entries is extended only after the gate returned nil for the object name recorded in the entry. " +
 			"R5 (effects): methods of the mutation type write only receiver fields and make no storage call. " +
+			"R7 (ESP on the certificate upload — the gcsca function that receives the manifest and calls the gate): success after the gate is returned only where the key version's manifest entry was found or appended. " +
 			"R6 (ESP on storage/ops.WriteFile, the write primitive that R1–R4 treat as one event): it returns nil only after Storage.Writer, Write and Close (the commit of the object) all returned nil. " +
 			"Crash points at object granularity are the positions between write events, so R1+R2 give every prefix for every upload order. " +
 			"Not covered: partial writes inside one object, the dirty in-memory manifest after a failed Finalize, verification of the stored chain.",
@@ -255,6 +256,13 @@ func runC11(c *Ctx) {
 		}
 	}
 
+	// ---- R7 every uploaded certificate has a manifest entry ----
+	// In the functions of gcsca that call the gate and receive the manifest (the certificate
+	// upload), a nil-error return after the gate succeeded is reachable only where the key version's
+	// entry was found in the manifest or an entry was appended: an object in the bucket with no
+	// entry is an unlisted certificate, and the primary may then point at a key without one.
+	c.uploadEntryRule("R7", gates, finClosure)
+
 	// ---- R6 the write primitive reports a failed commit ----
 	// storage/ops.WriteFile is the atomic write event of R1–R4; that abstraction is only right if a
 	// nil result means the object was committed: on an object store Close() is the commit.
@@ -436,4 +444,96 @@ func isLocalAlloc(addr ssa.Value) bool {
 		}
 	}
 	return false
+}
+
+// uploadEntryRule: see R7 of C11 (also run by C10, whose failure-atomicity needs it:
+// a retried rotation must not leave a primary key without a listed certificate).
+func (c *Ctx) uploadEntryRule(rule string, gates map[*ssa.Function]bool, finClosure map[*ssa.Function]bool) {
+	entryPkg := repoPath("proto/certificates")
+	isEntryPtr := func(t types.Type) bool { return namedIs(t, entryPkg, "GCECertificateManifest_Entry") }
+	nUp := 0
+	for f := range finClosure {
+		if f == nil || load.RelPkg(f) != "sign/gcsca" || f.Blocks == nil || errIndex(f.Signature) < 0 {
+			continue
+		}
+		takesManifest := false
+		for _, p := range f.Params {
+			if namedIs(p.Type(), entryPkg, "GCECertificateManifest") {
+				takesManifest = true
+			}
+		}
+		gateCalls := callsIn(f, func(call ssa.CallInstruction) bool {
+			cal := call.Common().StaticCallee()
+			return cal != nil && gates[cal]
+		})
+		if !takesManifest || len(gateCalls) == 0 {
+			continue
+		}
+		nUp++
+		// the looked-up entry: result of a gcsca function returning *Entry
+		var lookups []ssa.Value
+		for _, call := range callsIn(f, func(call ssa.CallInstruction) bool {
+			cal := call.Common().StaticCallee()
+			return cal != nil && load.RelPkg(cal) == "sign/gcsca" && cal.Signature.Results().Len() == 1 && isEntryPtr(cal.Signature.Results().At(0).Type())
+		}) {
+			lookups = append(lookups, call.Value())
+		}
+		const (
+			bGate uint = iota
+			bAppended
+		)
+		r := &esp.Rule{Name: "C11.R7"}
+		r.Relevant = func(*ssa.Function) bool { return false }
+		r.Flag = func(v ssa.Value) (int, bool) {
+			for i, l := range lookups {
+				if v == l && i < 8 {
+					return i, true
+				}
+			}
+			return 0, false
+		}
+		r.Match = func(in ssa.Instruction) []esp.Ev {
+			if call, ok := in.(ssa.CallInstruction); ok {
+				if cal := call.Common().StaticCallee(); cal != nil && gates[cal] {
+					return []esp.Ev{{ID: 0, Name: "gate", ErrIdx: errIndex(cal.Signature), BoolIdx: -1}}
+				}
+			}
+			if st, ok := in.(*ssa.Store); ok {
+				if fa, ok := st.Addr.(*ssa.FieldAddr); ok && flow.FieldName(fa) == "Entries" {
+					if pt, ok := fa.X.Type().Underlying().(*types.Pointer); ok && namedIs(pt.Elem(), entryPkg, "GCECertificateManifest") {
+						return []esp.Ev{{ID: 1, Name: "entry appended", ErrIdx: -1, BoolIdx: -1}}
+					}
+				}
+			}
+			return nil
+		}
+		r.Step = func(x *esp.Ctx, s esp.State, ev esp.Ev, ph esp.Phase) (esp.State, string) {
+			switch {
+			case ev.ID == 0 && ph == esp.Ok:
+				return s.Set(bGate), ""
+			case ev.ID == 1:
+				return s.Set(bAppended), ""
+			}
+			return s, ""
+		}
+		r.AtReturn = func(x *esp.Ctx, s esp.State, rets []esp.Abs) string {
+			ei := errIndex(f.Signature)
+			if ei >= len(rets) || rets[ei] == esp.NonZero || !s.Has(bGate) || s.Has(bAppended) {
+				return ""
+			}
+			for i := range lookups {
+				if i < 8 && s.Flag(i) == esp.NonZero {
+					return ""
+				}
+			}
+			return rule + ": the certificate object was written through the gate and success is returned, but no manifest entry for the key version was found or appended on this path"
+		}
+		e := c.engine(r)
+		e.Run(f, esp.State{})
+		name := load.FuncName(f)
+		if c.reportEngine(e, rule, func(v *esp.Violation) string { return name + ":entry for uploaded certificate" }) == 0 {
+			c.S.OK(rule, name+":entry for uploaded certificate", c.pos(f.Pos()), fmt.Sprintf("success after the gate only with a found or appended manifest entry (%d configurations)", e.Configs), true)
+		}
+	}
+	c.S.Floor(rule, "certificate upload functions (gate + manifest) in gcsca", 1, nUp)
 }
